@@ -2,6 +2,7 @@
  * SPDX-License-Identifier: MIT */
 
 #include <dirent.h>
+#include <errno.h>
 #include <fcntl.h>
 #include <inttypes.h>
 #include <limits.h>
@@ -298,10 +299,12 @@ ovni_proc_init(int app, const char *loom, int pid)
 	atomic_store(&rproc.st, ST_READY);
 }
 
+/* Copies the file src into dst. The source is never modified. */
 static int
-move_thread_to_final(const char *src, const char *dst)
+copy_thread_to_final(const char *src, const char *dst)
 {
 	char buffer[1024];
+	int ret = 0;
 
 	FILE *infile = fopen(src, "r");
 
@@ -313,41 +316,63 @@ move_thread_to_final(const char *src, const char *dst)
 	FILE *outfile = fopen(dst, "w");
 
 	if (outfile == NULL) {
-		err("fopen(%s) failed:", src);
+		err("fopen(%s) failed:", dst);
+		fclose(infile);
 		return -1;
 	}
 
 	size_t bytes;
-	while ((bytes = fread(buffer, 1, sizeof(buffer), infile)) > 0)
-		fwrite(buffer, 1, bytes, outfile);
-
-	fclose(outfile);
-	fclose(infile);
-
-	if (remove(src) != 0) {
-		err("remove(%s) failed:", src);
-		return -1;
+	while ((bytes = fread(buffer, 1, sizeof(buffer), infile)) > 0) {
+		if (fwrite(buffer, 1, bytes, outfile) != bytes) {
+			err("fwrite(%s) failed:", dst);
+			ret = -1;
+			break;
+		}
 	}
 
-	return 0;
+	if (ret == 0 && ferror(infile)) {
+		err("fread(%s) failed:", src);
+		ret = -1;
+	}
+
+	if (fclose(outfile) != 0 && ret == 0) {
+		err("fclose(%s) failed:", dst);
+		ret = -1;
+	}
+
+	fclose(infile);
+
+	return ret;
 }
 
-static void
-move_thdir_to_final(const char *thdir, const char *thdir_final)
+enum move_step {
+	MOVE_COPY_DATA, /* Copy all stream.* files but stream.json */
+	MOVE_COPY_META, /* Copy stream.json */
+	MOVE_REMOVE,    /* Remove all stream.* files from thdir */
+};
+
+static int
+move_thdir_step(const char *thdir, const char *thdir_final, enum move_step step)
 {
 	DIR *dir;
 	int ret = 0;
 
 	if ((dir = opendir(thdir)) == NULL) {
 		err("opendir %s failed:", thdir);
-		return;
+		return -1;
 	}
 
 	struct dirent *dirent;
 	const char *prefix = "stream.";
-	while ((dirent = readdir(dir)) != NULL) {
+	while (errno = 0, (dirent = readdir(dir)) != NULL) {
 		/* It should only contain stream.* directories, skip others */
 		if (strncmp(dirent->d_name, prefix, strlen(prefix)) != 0)
+			continue;
+
+		int is_meta = (strcmp(dirent->d_name, "stream.json") == 0);
+		if (step == MOVE_COPY_DATA && is_meta)
+			continue;
+		if (step == MOVE_COPY_META && !is_meta)
 			continue;
 
 		char thread[PATH_MAX];
@@ -370,15 +395,39 @@ move_thdir_to_final(const char *thdir, const char *thdir_final)
 			continue;
 		}
 
-		if (move_thread_to_final(thread, thread_final) != 0)
+		if (step == MOVE_REMOVE) {
+			if (remove(thread) != 0) {
+				err("remove(%s) failed:", thread);
+				ret = 1;
+			}
+		} else if (copy_thread_to_final(thread, thread_final) != 0) {
 			ret = 1;
+		}
+	}
+
+	if (errno != 0) {
+		err("readdir %s failed:", thdir);
+		ret = 1;
 	}
 
 	closedir(dir);
 
-	/* Warn the user, but we cannot do much at this point */
-	if (ret)
+	return ret;
+}
+
+static void
+move_thdir_to_final(const char *thdir, const char *thdir_final)
+{
+	/* Copy the data first and the metadata (which holds the finished
+	 * flag) last, so the stream never appears as finished in the final
+	 * directory without its data. The originals are only removed once all
+	 * the copies are complete: on any error the stream is kept in thdir. */
+	if (move_thdir_step(thdir, thdir_final, MOVE_COPY_DATA) != 0
+			|| move_thdir_step(thdir, thdir_final, MOVE_COPY_META) != 0
+			|| move_thdir_step(thdir, thdir_final, MOVE_REMOVE) != 0) {
+		/* Warn the user, but we cannot do much at this point */
 		err("errors occurred when moving the thread dir to %s", thdir_final);
+	}
 }
 
 static void
